@@ -132,19 +132,7 @@ def run(ctx: Ctx):
     ctx.check(okm, "R15.b", f.key("component"), "every collected atom goes into the component", "MyokitComponent is not built from all collected states, parameters, intermediates and derivatives", f.where())
 
     ctx.rule("R15.c", "export: every atom kind is registered in the name map before any expression is converted; values and units are set from the atoms", floor=4)
-    h = sm.func("myokit.py", "gotran_to_myokit")
-    loops = [n for n in h.node.body if isinstance(n, ast.For)]
-    rd = [n for n in h.node.body if isinstance(n, ast.Assign) and norm(n.targets[0]) == "sympy_reader"]
-    ok = len(loops) == 2 and bool(rd) and loops[0].lineno < rd[0].lineno < loops[1].lineno
-    ctx.check(ok, "R15.c", h.key("two-passes"), "declare all variables, then convert expressions", "gotran_to_myokit no longer declares all variables in a first pass before converting expressions", h.where())
-    if len(loops) == 2:
-        regs = [norm(n.targets[0]) for n in ast.walk(loops[0]) if isinstance(n, ast.Assign) and norm(n.targets[0]).startswith("global_var_map[")]
-        want = ["global_var_map[sp.Symbol(state.name)]", "global_var_map[sp.Symbol(parameter.name)]", "global_var_map[sp.Symbol(intermediate.name)]"]
-        ctx.check(sorted(regs) == sorted(want), "R15.c", h.key("registered"), "states, parameters and intermediates are registered", f"registered names: {regs}", h.where(loops[0]))
-        convs = [norm(n.value) for n in ast.walk(loops[1]) if isinstance(n, ast.Assign) and ".xreplace(global_var_map)" in norm(n.value)]
-        ctx.check(sorted(convs) == sorted(["state_derivative.expr.xreplace(global_var_map)", "intermediate.expr.xreplace(global_var_map)"]), "R15.c", h.key("converted"), "derivative and intermediate expressions are renamed with the full map", f"converted: {convs}", h.where(loops[1]))
-        pv = any(norm(c) == "var.set_rhs(parameter.value)" for c in ast.walk(loops[0]) if isinstance(c, ast.Call)) and any(norm(c) == "v.promote(state.value)" for c in ast.walk(loops[1]) if isinstance(c, ast.Call))
-        ctx.check(pv, "R15.c", h.key("values"), "parameter values and state initial values are exported", "gotran_to_myokit does not export parameter values / initial state values from the atoms", h.where())
+    check_myokit_export(ctx, "R15.c")
 
     ctx.rule("R15.d", "the documented save-and-reload step keeps every operand of the n-ary connectives Myokit's sympy writer produces", floor=3)
     from . import printers
@@ -158,3 +146,83 @@ def run(ctx: Ctx):
     from .c11 import check_apply_all
 
     check_apply_all(ctx, "R15.d")
+
+
+def check_myokit_export(ctx: Ctx, rule: str):
+    """gotran_to_myokit, read from what it does (the set_rhs / promote calls it makes, as values): every expression is
+    converted after renaming with a map that already holds the qualified names of the states, parameters and
+    intermediates of *all* components; parameter values and initial state values come from the atoms."""
+    import re
+
+    from sa import av as _av
+
+    from . import util
+
+    h = ctx.sm.func("myokit.py", "gotran_to_myokit")
+    A = util.AV(ctx)
+    n0 = len(A.call_log)
+    try:
+        A.returned(h)
+    except Exception as e:
+        ctx.undecided(rule, h.key("two-passes"), f"gotran_to_myokit could not be evaluated ({e})", h.where())
+        return
+    log = [val for _f, _n, val in A.call_log[n0:]]
+    sets = [v for v in log if v[0] == "mcall" and v[2] == "set_rhs" and len(v[3]) == 1]
+    conv = []
+    raw_expr = []
+    for s_ in sets:
+        a = s_[3][0]
+        if a[0] == "mcall" and a[2] == "ex" and len(a[3]) == 1:
+            inner = a[3][0]
+            if inner[0] == "mcall" and inner[2] == "xreplace" and len(inner[3]) == 1:
+                conv.append((s_[1], inner[1], inner[3][0]))
+            else:
+                raw_expr.append(s_)
+    if not conv:
+        if raw_expr:
+            ctx.fail(rule, h.key("converted"), f"gotran_to_myokit converts expressions without renaming their symbols to qualified names ({_av.show(raw_expr[0])[:120]})", h.where())
+        else:
+            ctx.undecided(rule, h.key("two-passes"), "how gotran_to_myokit converts expressions (reader.ex(expr.xreplace(map))) is not recognised", h.where())
+        return
+
+    def registrations(M):
+        out = set()
+        for c in _av.find_all(M, "comp"):
+            it = c[2]
+            if it[0] == "attr" and it[2] in ("state_derivatives", "states", "parameters", "intermediates"):
+                for item in c[3]:
+                    if item[0] in ("kv", "kadd"):
+                        out.add((it[2], re.sub(rf"\${c[1]}\b", "_", _av.show(item[1]))))
+        return out
+
+    maps = {m for _r, _e, m in conv}
+    key2 = h.key("two-passes")
+    if any(_av.has_unk(m) for m in maps):
+        ctx.undecided(rule, key2, "the name map used when expressions are converted is not understood", h.where())
+    else:
+        over_all = all(any(c[2] == ("sym", f"{h.params[0]}.components") or _av.show(c[2]).endswith(".components") for c in _av.find_all(m, "comp")) for m in maps)
+        partial = any(_av.has(m, "acc") for m in maps)
+        ctx.check(len(maps) == 1 and over_all and not partial, rule, key2, "declare all variables, then convert expressions", "gotran_to_myokit no longer declares the variables of all components before converting expressions (the name map is incomplete when an expression is converted)", h.where())
+        regs = set().union(*[registrations(m) for m in maps])
+        want_any = [{("state_derivatives", "sympy.Symbol(_.state.name)"), ("states", "sympy.Symbol(_.name)")}, {("parameters", "sympy.Symbol(_.name)")}, {("intermediates", "sympy.Symbol(_.name)")}]
+        missing = [sorted(w)[0][0] for w in want_any if not (w & regs)]
+        ctx.check(not missing, rule, h.key("registered"), "states, parameters and intermediates are registered", f"gotran_to_myokit: the name map does not register {missing} under their own names (registered: {sorted(regs)})", h.where())
+    # which expressions are converted: <component>[x.state.name] <- x.expr and <component>[x.name] <- x.expr
+    kinds = set()
+    for recv, src, _m in conv:
+        if src[0] == "attr" and src[2] == "expr" and src[1][0] == "bv" and recv[0] == "sub":
+            k = recv[2]
+            if k == ("attr", ("attr", src[1], "state"), "name"):
+                kinds.add("derivative")
+            elif k == ("attr", src[1], "name"):
+                kinds.add("intermediate")
+            else:
+                kinds.add("other:" + _av.show(k))
+        else:
+            kinds.add("other:" + _av.show(src)[:40])
+    others = sorted(k for k in kinds if k.startswith("other:"))
+    ctx.check({"derivative", "intermediate"} <= kinds and not others, rule, h.key("converted"), "derivative and intermediate expressions are renamed with the full map", f"gotran_to_myokit: converted expressions are {sorted(kinds)} (each state's variable gets its derivative's expression, each intermediate its own)", h.where())
+    pvals = any(s_[3][0][0] == "attr" and s_[3][0][2] == "value" and s_[3][0][1][0] == "bv" and ("add_variable(" + _av.show(s_[3][0][1]) + ".name)") in _av.show(s_[1]) for s_ in sets)
+    proms = [v for v in log if v[0] == "mcall" and v[2] == "promote" and len(v[3]) == 1]
+    sv = any(p_[3][0] == ("attr", ("attr", p_[1][2][1][1], "state"), "value") for p_ in proms if p_[1][0] == "sub" and p_[1][2][0] == "attr" and p_[1][2][1][0] == "attr" and p_[1][2][1][2] == "state")
+    ctx.check(pvals and sv, rule, h.key("values"), "parameter values and state initial values are exported", "gotran_to_myokit does not export parameter values / initial state values from the atoms", h.where())
